@@ -56,8 +56,8 @@ def m_clone(tier):
                 MaxLen=2 if tier == "quick" else 3, MaxLenB=2 if tier == "quick" else 3, MaxExt=1,
                 OneHandle=True, srcs=["wrapper"], sinks=["drop", "push", "ext"], timeout=6000)
 def m_long(tier):
-    # length-dependent code paths (block-wise loops, word-wise copies): vectors of up to 9 / 17 elements, whole-vector operations only
-    return dict(alpha=["push", "clear", "clone", "drain"], MaxLen=9 if tier == "quick" else 17, MaxLenB=9 if tier == "quick" else 17, MaxExt=0, MaxOut=0, MaxRepl=0,
+    # length-dependent code paths (block-wise loops, word-wise copies): vectors of up to 9 / 12 elements, whole-vector operations only
+    return dict(alpha=["push", "clear", "clone", "drain"], MaxLen=9 if tier == "quick" else 12, MaxLenB=9 if tier == "quick" else 12, MaxExt=0, MaxOut=0, MaxRepl=0,
                 OneHandle=True, forms=[".."], srcs=["typed"], sinks=["drop"], timeout=6000)
 def m_lazy(tier):
     # lazy clones of element references, removal handles and kept drained items; depth 1..3; 0..k consumptions; every sink
